@@ -25,7 +25,7 @@ ASSUMPTIONS = [
 BUDGET = {"quick": {"examples": 96, "shrink": 40}, "thorough": {"examples": 1600, "shrink": 200}}
 EXHAUSTIVE = "one destination walked through 2 x 65535 + 10 consecutive SD sends (fixed case), i.e. the complete cycle of (flag, id) states twice"
 
-DESTS = [None] + ADDRS
+DESTS = [None] + ADDRS + [("2001:db8::3", 30490, 0, 7)]   # the last one differs from ADDRS[1] in its scope id only
 
 
 def fixed_cases(tier):
@@ -34,9 +34,12 @@ def fixed_cases(tier):
         {"kind": "sd", "blocks": [[1, 65534, 0], [2, 3, 1], [1, 1, 1], [0, 65535, 0], [2, 2, 0], [1, 2, 2], [0, 2, 2], [2, 65531, 0], [2, 3, 2]]},
         {"kind": "sd", "blocks": [[0, 65534, 1], [0, 3, 2], [2, 65533, 0], [2, 1, 1], [2, 4, 1]]},
         {"kind": "sd", "blocks": [[1, 65540, 2]]},
+        {"kind": "sd", "blocks": [[2, 3, 0], [4, 2, 0], [2, 2, 1], [4, 65534, 0], [2, 1, 0], [4, 3, 0]]},   # two IPv6 peers differing in scope id only
         {"kind": "sd", "blocks": [[1, 3, 0], ["recv", 0, 0], ["recv", 0, 1], [1, 3, 0], [2, 2, 0], ["recv", 1, 0], ["recv", 1, 1], ["recv", 1, 1], [2, 2, 0], [1, 65530, 0], ["recv", 0, 1], [1, 3, 0]]},
         {"kind": "notify", "nev": 2, "eps": 3, "script": [["sub!", 0], ["unsub!", 0], ["sub", 0], ["rounds", 3], ["sub!", 1], ["unsub", 1], ["sub", 1], ["rounds!", 2], ["unsub", 0], ["sub", 0], ["rounds", 2]]},
         {"kind": "notify", "nev": 2, "eps": 3, "script": [["sub", 1], ["sub!", 0], ["hop", 1], ["unsub!", 0], ["hop", 1], ["sub!", 0], ["rounds!", 2], ["hop", 2], ["unsub!", 1], ["rounds", 2], ["sub", 1], ["rounds", 2]]},
+        # the last subscriber leaves and comes back: its counter goes on
+        {"kind": "notify", "nev": 2, "eps": 3, "script": [["sub", 0], ["rounds", 3], ["unsub", 0], ["sub", 0], ["rounds", 2], ["sub", 1], ["rounds", 2], ["unsub", 0], ["unsub", 1], ["sub", 1], ["sub", 0], ["rounds", 2]]},
         {"kind": "notify", "nev": 4, "eps": 3, "script": [["sub", 0], ["rounds", 100], ["sub", 1], ["rounds", 16300], ["unsub", 0], ["sub", 2], ["rounds", 200], ["sub", 0], ["rounds", 3]]},
     ]
     if tier == "thorough":
@@ -74,7 +77,7 @@ def _case(draw):
             break
         budget -= c
         mode = draw(st.sampled_from([0, 0, 1, 2])) if c <= 300 else draw(st.sampled_from([0, 1]))
-        blocks.append([draw(st.integers(0, 3)), c, mode])
+        blocks.append([draw(st.integers(0, 4)), c, mode])
     return {"kind": "sd", "blocks": blocks}
 
 
